@@ -1,6 +1,7 @@
 package props
 
 import (
+	"io/ioutil"
 	"fmt"
 	"os"
 	"path/filepath"
@@ -372,6 +373,24 @@ func diskTwinP1(s *scen.P1Set, start *envfs.FS, o, oa *scen.P1Obs, c *p1Case, r 
 	defer os.RemoveAll(root)
 	materialize(root, start.Files)
 	index := filepath.Join(root, s.Index)
+	// run from another directory that holds intact look-alikes of every file of the set under the same names: nothing
+	// may be resolved against the working directory (the decoy directory lies outside root and must stay as it is)
+	decoy := root + "-cwd"
+	os.RemoveAll(decoy)
+	os.MkdirAll(decoy, 0755)
+	defer os.RemoveAll(decoy)
+	for p, b := range s.FS0.Files {
+		ioutil.WriteFile(filepath.Join(decoy, filepath.Base(p)), b, 0644)
+	}
+	decoyBefore := readTree(decoy)
+	oldwd, _ := os.Getwd()
+	os.Chdir(decoy)
+	defer os.Chdir(oldwd)
+	defer func() {
+		if d := envfs.Diff(readTree(decoy), decoyBefore); len(d) > 0 {
+			r.Violatef("disk-run-touched-the-working-directory", "the working directory (not the set's) changed: %v", d)
+		}
+	}()
 	var vres par1.VerifyResult
 	var verr, rerr error
 	var rres par1.RepairResult
